@@ -2,6 +2,7 @@
 """tools/mkmeta.py <Cxx> <round> <change> <needs> <first_result> <strengthening|-> [caught_by...]  -> seeded/<Cxx>-<round>/meta.json"""
 import json, os, sys
 ORIGIN = {
+    13: "written by a fresh sub-agent given only the property text and its own scratch worktree (at /repo commit f5121f2); the agent was asked for a change that needs a HISTORY (state carried from an earlier assertion / macro invocation), a CONJUNCTION of independent features at different places, a particular SIZE / COUNT / BOUNDARY, or two cooperating edits to manifest, listed at least fourteen candidates and was told which numbered one (9-14) to realise; applied unchanged",
     11: "written by a fresh sub-agent given only the property text and its own scratch worktree (at /repo commit f5121f2); the agent was asked for a REFACTORING / clean-up / performance commit ('no behaviour change intended') made of two cooperating sites that each look fine alone, listed at least fourteen candidates and was told which numbered one (6-12) to realise; applied unchanged",
     12: "written by a fresh sub-agent given only the property text and its own scratch worktree (at /repo commit f5121f2); the agent was asked for a BUG-FIX / robustness / compatibility commit whose fix - correct for the case its author had in mind - breaks the property in another corner, listed at least fourteen candidates and was told which numbered one (8-12) to realise; applied unchanged",
     10: "written by a fresh sub-agent given only the property text and its own scratch worktree (at /repo commit fc05304); the agent was asked for a small FEATURE or behaviour improvement - with a CHANGELOG entry and a working example - whose natural implementation breaks the property as a side effect, listed at least fourteen candidates and was told which numbered one (5-13) to realise; applied unchanged (C10-10 rebased onto fix f5121f2, original kept as patch.orig-fc05304.diff)",
